@@ -44,7 +44,7 @@ def main():
             return 1
         rc, out = sh('go build ./...', cwd=wt)
         report['builds'] = rc == 0
-        base = '/tmp/wt/baseline.py'
+        base = '/verif/tools/baseline.py'
         rc, out = sh('python3 %s %s' % (base, wt))
         report['suite_passes_with_patch'] = rc == 0 and 'newly failing' not in out
         print(out.strip().splitlines()[-1] if out.strip() else '')
